@@ -515,7 +515,8 @@ def lot_vectors_dense_internal(
             row_sum = row_distribution.sum()
 
             if row_sum > 0.0:
-                row_distribution /= row_sum
+                # Not in place: row_distribution may be the caller's own array
+                row_distribution = row_distribution / row_sum
 
                 if row_vectors.shape[0] > reference_vectors.shape[0]:
                     cost = chunked_pairwise_distance(
